@@ -422,3 +422,176 @@ Proof.
     destruct Hc as [<-|[<-|[]]]; destruct Hi as [<-|[]]; unfold ok_iso2d; cbn; lra.
   - exists g. split; [exact Hj|]. split; [exact Lg|]. exact Hk.
 Qed.
+
+(* ======================================================================
+   Route T for the packing and the assembly: tools/py2coq_fitpack.py
+   regenerates Gen/fitpack.v from the CURRENT source of
+     vect_from_params, vect_to_params, MODE_DICT,
+     FitFunctions.__init__ (param_mode -> self.modes),
+     FitFunctions.get_residual (cl_groups, residual, jacobian)
+   on every run of the check (vocabulary: Model/PyFitpack.v; a Python
+   exception is PRaise).  Proofs/FitpackGen.v and Proofs/FitpackGen2.v show
+   that the generated functions are the hand-written models above, for all
+   inputs; the headline theorems are restated for the generated functions.
+   ====================================================================== *)
+From TP Require Import Model.PyFitpack Gen.fitpack Proofs.FitpackGen.
+Close Scope R_scope.
+
+(* generated vect_from_params = Model/Pack.v's pack (exception = None), every
+   element type, modes, grouping and operation.  modes <> []: Python's
+   `assert min(modes) >= 0` raises on an empty mode list, the model returns []. *)
+Theorem C15_gen_vect_from_params_is_model :
+  forall (A : Type) (n : nat) (params : list (list A)) (modes : list nat) (groups : groups_t)
+         (op : option (list A -> option A)),
+  modes <> [] -> pres_opt (vect_from_params n params modes groups op) = pack op groups modes params.
+Proof. exact @gen_vect_from_params_eq. Qed.
+Print Assumptions C15_gen_vect_from_params_is_model.
+
+(* generated vect_to_params = Model/Pack.v's unpack (which also returns the unread tail) *)
+Theorem C15_gen_vect_to_params_is_model :
+  forall (A : Type) (n : nat) (params : list (list A)) (modes : list nat) (groups : groups_t) (vect : list A),
+  modes <> [] -> pres_opt (vect_to_params vect n params modes groups) = option_map fst (unpack groups n modes vect params).
+Proof. exact @gen_vect_to_params_eq. Qed.
+Print Assumptions C15_gen_vect_to_params_is_model.
+
+(* C15_unpack_pack for the generated functions: unpack(pack p) = p *)
+Theorem C15_gen_unpack_pack :
+  forall (A : Type) (op : option (list A -> option A)) (groups : groups_t) (n : nat)
+         (modes : list nat) (cols cols0 : list (list A)),
+  modes <> [] -> ops_ok op -> consistent groups n modes cols cols0 ->
+  exists v, vect_from_params n cols modes groups op = POk v /\
+            length v = packed_len groups n modes /\
+            vect_to_params v n cols0 modes groups = POk cols.
+Proof. exact @gen_unpack_pack. Qed.
+Print Assumptions C15_gen_unpack_pack.
+
+(* C15_pack_unpack for the generated functions: pack(unpack v) = v *)
+Theorem C15_gen_pack_unpack :
+  forall (A : Type) (op : option (list A -> option A)) (groups : groups_t) (n : nat)
+         (modes : list nat) (cols0 : list (list A)) (v : list A),
+  modes <> [] -> ops_ok op -> length modes = length cols0 ->
+  List.Forall (fun c => length c = n) cols0 -> List.Forall (mode_wf groups n) modes ->
+  length v = packed_len groups n modes ->
+  exists P, vect_to_params v n cols0 modes groups = POk P /\
+            List.Forall (fun c => length c = n) P /\
+            vect_from_params n P modes groups op = POk v.
+Proof. exact @gen_pack_unpack. Qed.
+Print Assumptions C15_gen_pack_unpack.
+
+(* FitFunctions.__init__, generated: whatever param_mode is passed, when the
+   block completes self.params = (background, signal, <pos>, <size>, <model
+   parameters>), self.modes has one entry per parameter and the background
+   mode is never 1 ('var'): it was rewritten to 3 ('cluster') with exactly one
+   warning, or no warning was issued.  (With background in {0, 2, 3} the
+   hypothesis bg_mode_ok of C15_gradient_exact holds: C15_bg_mode_builtin.) *)
+Theorem C15_gen_init_background_never_var :
+  forall pos size fp iso pm params modes warns,
+  init_modes pos size fp iso pm = POk (params, modes, warns) ->
+  params = s_background :: s_signal :: pos ++ size ++ fp /\      (* "background", "signal" *)
+  length modes = length params /\
+  hd 0%Z modes <> 1%Z /\
+  (warns = [] \/ (warns = [background_warning] /\ hd 0%Z modes = 3%Z)).
+Proof. exact gen_init_modes_background. Qed.
+Print Assumptions C15_gen_init_background_never_var.
+
+(* ---- the closures of FitFunctions.get_residual, generated, read over R ----
+   R_ops        : the real numbers as the number type of the generated closures
+   py_items     : zip(cl_groups, images, meshes, masks)
+   cluster_of   : one such element as a cluster of Model/Jacobian2.v: rows `indices`,
+                  live pixels / len(image) / values of `image`, and
+                    cl_val i x p = signal * model_fun(r2_fun(mesh[:, x], p), p[-n_fun_params:], ndim) under the
+                                   mask that zip(indices, masks_cl) pairs with row i, else 0
+                    cl_row i x p = derivs_row signal (model_dfun ...) (dr2_fun ...) under that mask, else []
+   item_ok      : the rows of a cluster are distinct and it has one mask per row *)
+From TP Require Import Proofs.FitpackGen2.
+Open Scope R_scope.
+
+(* residual(vect), generated = the model's residual whenever vect_to_params succeeds; else it raises *)
+Theorem C15_gen_residual_is_model :
+  forall (X : Type) (r2_fun : list R -> list R -> R) (dr2_fun : list R -> list R -> list R)
+         (model_fun : R -> list R -> R -> R) (model_dfun : R -> list R -> R -> R * list R)
+         (fp : list String.string) (ndim : R) (dr2_len dfun_len : nat)
+         (images : list (image R X)) (meshes : list (X -> list R)) (masks : list (list (X -> bool)))
+         (n : nat) (cols0 : list (list R)) (groups : groups_t) (norm : R) (modes : list nat) (v : list R),
+  modes <> [] -> List.Forall item_ok (py_items images meshes masks n groups) ->
+  match unpack groups n modes v cols0 with
+  | Some _ => get_residual_residual R_ops r2_fun dr2_fun model_fun model_dfun fp ndim modes dr2_len dfun_len
+                                    images meshes masks n cols0 groups norm v
+              = POk (residual (py_clusters r2_fun dr2_fun model_fun model_dfun fp ndim images meshes masks n groups)
+                              groups n modes cols0 norm v)
+  | None => exists e, get_residual_residual R_ops r2_fun dr2_fun model_fun model_dfun fp ndim modes dr2_len dfun_len
+                                            images meshes masks n cols0 groups norm v = PRaise e
+  end.
+Proof. exact @gen_residual_eq. Qed.
+Print Assumptions C15_gen_residual_is_model.
+
+(* jacobian(vect), generated = the model's jacobian (a Python exception is None).
+   Hypotheses on the functions stored in self: model_dfun returns (model_fun,
+   n_fun_params + 1 derivatives) and dr2_fun returns dr2_len rows, whatever the pixel;
+   on the shapes: params_const is n x len(modes) and a parameter row is
+   (background, signal, <dr2_len position/size columns>, <n_fun_params model parameters>). *)
+From TP Require Import Proofs.FitpackGen3.
+Theorem C15_gen_jacobian_is_model :
+  forall (X : Type) (r2_fun : list R -> list R -> R) (dr2_fun : list R -> list R -> list R)
+         (model_fun : R -> list R -> R -> R) (model_dfun : R -> list R -> R -> R * list R)
+         (fp : list String.string) (ndim : R) (dr2_len dfun_len : nat),
+  (forall r e nd, fst (model_dfun r e nd) = model_fun r e nd) ->
+  (forall r e nd, length (snd (model_dfun r e nd)) = dfun_len) ->
+  (forall m p, length (dr2_fun m p) = dr2_len) ->
+  dfun_len = (length fp + 1)%nat ->
+  forall (images : list (image R X)) (meshes : list (X -> list R)) (masks : list (list (X -> bool)))
+         (n : nat) (cols0 : list (list R)) (groups : groups_t) (norm : R) (modes : list nat) (v : list R),
+  modes <> [] -> List.Forall item_ok (py_items images meshes masks n groups) ->
+  length modes = length cols0 -> List.Forall (fun c => length c = n) cols0 ->
+  length modes = (2 + dr2_len + length fp)%nat ->
+  pres_opt (get_residual_jacobian R_ops r2_fun dr2_fun model_fun model_dfun fp ndim modes dr2_len dfun_len
+                                  images meshes masks n cols0 groups norm v)
+  = jacobian (py_clusters r2_fun dr2_fun model_fun model_dfun fp ndim images meshes masks n groups)
+             groups n modes cols0 norm v.
+Proof. exact @gen_jacobian_eq. Qed.
+Print Assumptions C15_gen_jacobian_is_model.
+
+(* C15_gradient_exact FOR THE GENERATED CLOSURES: the vector returned by the
+   generated jacobian(v) is the gradient of the generated residual at v, along
+   every direction and in every component -- hypotheses of C15_gradient_exact
+   (read on the clusters cluster_of(zip(cl_groups, images, meshes, masks))) plus
+   the shape hypotheses above; pres_val x = the value residual returns. *)
+Theorem C15_gen_gradient_exact :
+  forall (X : Type) (r2_fun : list R -> list R -> R) (dr2_fun : list R -> list R -> list R)
+         (model_fun : R -> list R -> R -> R) (model_dfun : R -> list R -> R -> R * list R)
+         (fp : list String.string) (ndim : R) (dr2_len dfun_len : nat),
+  (forall r e nd, fst (model_dfun r e nd) = model_fun r e nd) ->
+  (forall r e nd, length (snd (model_dfun r e nd)) = dfun_len) ->
+  (forall m p, length (dr2_fun m p) = dr2_len) ->
+  dfun_len = (length fp + 1)%nat ->
+  forall (images : list (image R X)) (meshes : list (X -> list R)) (masks : list (list (X -> bool)))
+         (n : nat) (cols0 : list (list R)) (groups : groups_t) (norm : R) (m0 : nat) (ms : list nat) (v : list R),
+  List.Forall item_ok (py_items images meshes masks n groups) ->
+  length (m0 :: ms) = length cols0 -> List.Forall (fun c => length c = n) cols0 ->
+  List.Forall (mode_wf groups n) (m0 :: ms) -> length v = packed_len groups n (m0 :: ms) ->
+  length images = length (cl_groups_of groups n) -> length meshes = length (cl_groups_of groups n) ->
+  length masks = length (cl_groups_of groups n) ->
+  partition n (cl_groups_of groups n) -> bg_mode_ok groups (cl_groups_of groups n) m0 ->
+  length (m0 :: ms) = (2 + dr2_len + length fp)%nat ->
+  (forall P rest, unpack groups n (m0 :: ms) v cols0 = Some (P, rest) ->
+     forall c i x dp, In c (py_clusters r2_fun dr2_fun model_fun model_dfun fp ndim images meshes masks n groups) ->
+     In i (cl_idx c) -> In x (cl_pix c) -> length dp = length (m0 :: ms) ->
+     is_derive (fun t => cl_val c i x (line (row_of P i) dp t)) 0 (dot (cl_row c i x (row_of P i)) (tl dp))) ->
+  exists g, get_residual_jacobian R_ops r2_fun dr2_fun model_fun model_dfun fp ndim (m0 :: ms) dr2_len dfun_len
+                                  images meshes masks n cols0 groups norm v = POk g /\
+            length g = length v /\
+    (forall w, length w = length v ->
+       is_derive (fun t => pres_val (get_residual_residual R_ops r2_fun dr2_fun model_fun model_dfun fp ndim (m0 :: ms) dr2_len dfun_len
+                                                            images meshes masks n cols0 groups norm (line v w t))) 0 (dot g w)) /\
+    (forall k, (k < length v)%nat ->
+       is_derive (fun s => pres_val (get_residual_residual R_ops r2_fun dr2_fun model_fun model_dfun fp ndim (m0 :: ms) dr2_len dfun_len
+                                                            images meshes masks n cols0 groups norm (upd v k s))) (nth k v 0) (nth k g 0)).
+Proof. exact @gen_gradient_exact. Qed.
+Print Assumptions C15_gen_gradient_exact.
+
+(* the same generated closures, instantiated at Q (Model/FitpackCheck.v: Q_ops), are executable:
+   one cluster of two overlapping features over three pixels, user-supplied r2 / model functions;
+   the values are those FitFunctions.get_residual returns on the same data *)
+From TP Require Import Model.FitpackCheck.
+Example C15_gen_closures_execute : (toy_residual toy_vect, toy_jacobian toy_vect) = toy_expected.
+Proof. vm_compute. reflexivity. Qed.
